@@ -4,8 +4,8 @@
    divisions); the only finite-domain statements are the `_refuted` witnesses and the examples.
    The model (Model/C11.v) is tied to partitura's code by the correspondence run of
    harness/props/c11.py on every check (same definitions, evaluated by vm_compute). *)
-From PV Require Import Lib.Base Lib.Round Gen.C11_Tables Model.C11 Model.C11_Spec
-  Proofs.C11_lib Proofs.C11_meas Proofs.C11_est Proofs.C11.
+From PV Require Import Lib.Base Lib.Round Gen.C11_Tables Model.C11 Model.C11_Spec Model.C11_Norm
+  Proofs.C11_lib Proofs.C11_meas Proofs.C11_est Proofs.C11 Proofs.C11_norm Proofs.C11_tup Proofs.C11_slur.
 From Coq Require Import QArith Qabs Sorting.Sorted.
 #[local] Open Scope Z_scope.
 
@@ -229,3 +229,207 @@ Theorem sweep_row_judgement_scale_invariant : forall k d div obs,
   0 < k -> 0 < div -> classify_row (k * d) (k * div) obs = classify_row d div obs.
 Proof. exact classify_row_scale_lemma. Qed.
 Print Assumptions sweep_row_judgement_scale_invariant.
+
+(* ------------------------------------------------------------------ O3 under a changing divisions value *)
+(* Model.C11_Norm: tie_notes on a part whose divisions value changes (Part.set_quarter_duration);
+   dm lists (time, divisions); div_at dm t is the value in force at t.  The correspondence of
+   every run evaluates these definitions (chk_tie_dm). *)
+
+Theorem tie_preserves_sounding_dm : forall bars dm c, sounding (tie_chain_dm bars dm c) = sounding c.
+Proof. exact tie_sounding_dm. Qed.
+Print Assumptions tie_preserves_sounding_dm.
+
+Theorem tie_within_measure_dm : forall ms a b bars dm ps,
+  Forall (fun e => 0 < snd e) dm -> chain_from a ms b -> bars = map fst ms ->
+  Forall (fun p => a <= fst p /\ fst p < snd p /\ snd p <= b) ps ->
+  Forall (fun q => within_one ms q /\ fst q < snd q) (tie_pieces_dm bars dm ps).
+Proof. exact tie_pieces_wf_dm. Qed.
+Print Assumptions tie_within_measure_dm.
+
+Theorem tie_chain_contiguous_dm : forall bars dm ps, contiguous ps -> contiguous (tie_pieces_dm bars dm ps).
+Proof. exact tie_contiguous_dm. Qed.
+Print Assumptions tie_chain_contiguous_dm.
+
+Theorem tie_chain_identity_dm : forall bars dm p v st ps,
+  exists ps', tie_chain_dm bars dm (p, v, st, ps) = (p, v, st, ps').
+Proof. exact tie_chain_identity_dm. Qed.
+Print Assumptions tie_chain_identity_dm.
+
+(* the symbolic durations are listed for exactly the pieces of the result *)
+Theorem tie_symbols_of_the_pieces : forall bars dm ps,
+  map fst (tie_pieces_sym_dm bars dm ps) = tie_pieces_dm bars dm ps.
+Proof. exact tie_pieces_sym_fst. Qed.
+Print Assumptions tie_symbols_of_the_pieces.
+
+(* with one divisions value this is the model of the theorems above *)
+Theorem tie_one_divisions_value : forall bars t0 div ps,
+  tie_pieces_dm bars [(t0, div)] ps = tie_pieces bars div ps
+  /\ forall q e, In (q, e) (tie_pieces_sym_dm bars [(t0, div)] ps) -> e = piece_sym div q.
+Proof. exact tie_one_divisions_lemma. Qed.
+Print Assumptions tie_one_divisions_value.
+
+(* every symbolic duration assigned evaluates to the piece's numeric duration under the divisions in force
+   at the piece's own start -- when every change of the divisions value is at a bar line (and the estimator
+   hit its value exactly) *)
+Theorem tie_symbolic_under_divisions_in_force : forall bars dm ps q sd,
+  StronglySorted Z.lt bars -> Forall (fun e => 0 < snd e) dm ->
+  Forall (fun e => In (fst e) bars) (tl dm) ->
+  Forall (fun p => fst p < snd p) ps ->
+  In (q, ESome sd) (tie_pieces_sym_dm bars dm ps) ->
+  exact_hit (snd q - fst q) (div_at dm (fst q)) = true ->
+  exists v, sym_to_num sd (div_at dm (fst q)) = Some v /\ (v == inject_Z (snd q - fst q))%Q.
+Proof. exact tie_symbolic_in_force_lemma. Qed.
+Print Assumptions tie_symbolic_under_divisions_in_force.
+
+(* ... and not otherwise (known finding C11-K4): 4 divisions, 8 from time 2 on, no bar line there; the note
+   (0, 10) is split at 8 and the piece (8, 10) carries "eighth" = 4 divisions at 8 per quarter *)
+Theorem tie_mixed_units_refuted :
+  exists bars dm ps q sd v,
+    In (q, ESome sd) (tie_pieces_sym_dm bars dm ps)
+    /\ exact_hit (snd q - fst q) (div_at dm (fst q)) = true
+    /\ sym_to_num sd (div_at dm (fst q)) = Some v /\ Qeq_bool v (inject_Z (snd q - fst q)) = false.
+Proof. exact tie_mixed_units_refuted_lemma. Qed.
+Print Assumptions tie_mixed_units_refuted.
+
+Theorem tie_outcome_dm : forall bars dm ps q e,
+  Forall (fun x => 0 < snd x) dm -> StronglySorted Z.lt bars -> Forall (fun p => fst p < snd p) ps ->
+  In (q, e) (tie_pieces_sym_dm bars dm ps) ->
+  has_sym e = true
+  \/ (In q (stage1_pieces bars ps)
+      /\ ((forall cuts, find_tie_split (fst q) (snd q) (div_at dm (fst q)) <> Some (Some cuts))
+          \/ estimate (snd q - fst q) (div_at dm (fst q)) = EFuel)).
+Proof. exact tie_outcome_dm_lemma. Qed.
+Print Assumptions tie_outcome_dm.
+
+(* the divisions change at the bar line 16 (4 -> 8) under a note (12, 24): a quarter before the bar line, a
+   quarter (8 divisions) after it *)
+Example tie_divisions_change_example :
+  tie_pieces_sym_dm [0; 16] [(0, 4); (16, 8)] [(12, 24)]
+  = [((12, 16), ESome ("quarter"%string, 0, None)); ((16, 24), ESome ("quarter"%string, 0, None))].
+Proof. exact ex_tie_dm. Qed.
+Print Assumptions tie_divisions_change_example.
+
+(* the slurs that stopped at a note stop, afterwards, at a piece that ends where that note ended *)
+Theorem slur_stop_ends_with_note : forall bars dm ps j d,
+  (j < List.length ps)%nat ->
+  snd (nth (slur_stop_pos bars dm ps j) (tie_pieces_dm bars dm ps) (d, d)) = snd (nth j ps (d, d)).
+Proof. exact slur_stop_end_lemma. Qed.
+Print Assumptions slur_stop_ends_with_note.
+
+(* ------------------------------------------------------------------ O2: sanitize_part *)
+
+(* of a sequence of grace notes exactly those members are removed that are visited before the first
+   member for which a note of its voice starts at its time -- none when the sequence has a main note *)
+Theorem sanitize_grace_removed_exactly : forall notes ms lnk,
+  fst (san_members notes ms lnk)
+  = match lnk with
+    | Some _ => []
+    | None => map gm_id (take_while (fun m => is_none (cand_at notes (gm_t m) (gm_v m))) ms)
+    end.
+Proof. exact san_removed_spec. Qed.
+Print Assumptions sanitize_grace_removed_exactly.
+
+(* the main note afterwards: the one the sequence had, else the candidate of that first member *)
+Theorem sanitize_grace_main_note : forall notes ms lnk,
+  snd (san_members notes ms lnk)
+  = match lnk with
+    | Some n => Some n
+    | None => match drop_while (fun m => is_none (cand_at notes (gm_t m) (gm_v m))) ms with
+              | [] => None
+              | m :: _ => cand_at notes (gm_t m) (gm_v m)
+              end
+    end.
+Proof. exact san_link_spec. Qed.
+Print Assumptions sanitize_grace_main_note.
+
+(* a candidate is a note of that voice starting at that time *)
+Theorem sanitize_candidate_is_note : forall notes t v i,
+  cand_at notes t v = Some i -> exists n, In n notes /\ fst (fst n) = i /\ snd (fst n) = t /\ snd n = v.
+Proof. exact cand_at_spec. Qed.
+Print Assumptions sanitize_candidate_is_note.
+
+(* sanitising keeps the note-array rows of all grace notes when every sequence has a main note or can be
+   given one *)
+Theorem sanitize_keeps_grace_rows : forall notes seqs,
+  Forall (linkable notes) seqs -> grace_rows_after notes seqs = grace_rows seqs.
+Proof. exact sanitize_grace_rows_lemma. Qed.
+Print Assumptions sanitize_keeps_grace_rows.
+
+(* ... and not otherwise (known finding C11-K3) *)
+Theorem sanitize_orphan_refuted : exists notes seqs, grace_rows_after notes seqs <> grace_rows seqs.
+Proof. exact sanitize_orphan_refuted_lemma. Qed.
+Print Assumptions sanitize_orphan_refuted.
+
+Example sanitize_chain_of_two : san_members [(7, 4, 1)] [(0, 4, 1); (1, 4, 1)] None = ([], Some 7).
+Proof. exact sanitize_chain_of_two_example. Qed.
+Print Assumptions sanitize_chain_of_two.
+
+(* a contiguous tie chain is kept, whatever the tolerance *)
+Theorem sanitize_keeps_contiguous_chains : forall tol cs,
+  0 <= tol -> Forall (fun c => contiguous (snd c)) cs -> sanitize_chains tol cs = cs.
+Proof. exact sanitize_chains_rows_lemma. Qed.
+Print Assumptions sanitize_keeps_contiguous_chains.
+
+Theorem sanitize_after_tie : forall tol bars dm p v st ps,
+  0 <= tol -> contiguous ps ->
+  sanitize_chain tol (tie_chain_dm bars dm (p, v, st, ps)) = [tie_chain_dm bars dm (p, v, st, ps)].
+Proof. exact sanitize_after_tie_lemma. Qed.
+Print Assumptions sanitize_after_tie.
+
+(* afterwards: single notes, and chains whose extent is their summed duration up to the tolerance *)
+Theorem sanitize_chain_result : forall tol c c',
+  In c' (sanitize_chain tol c) -> (List.length (snd c') <= 1)%nat \/ chain_span_ok tol (snd c') = true.
+Proof. exact sanitize_chain_result_lemma. Qed.
+Print Assumptions sanitize_chain_result.
+
+(* ------------------------------------------------------------------ O2/O3: find_tuplets *)
+
+(* every assignment is made to k untyped notes of one duration d, k in {9, 7, 5, 3}; the type is the
+   estimate of k*d/2 under the divisions at the first of them -- a value of the table without dots -- and
+   the ratio k:2; whenever that estimate is exact the symbolic duration evaluates to d *)
+Theorem find_tuplets_assigned_exact : forall dm ns idxs sd,
+  Forall (fun e => 0 < snd e) dm -> Forall (fun n => tn_s n < tn_e n) ns ->
+  In (idxs, sd) (find_tuplets dm ns) ->
+  exists ty k d i0 n0,
+    sd = (ty, 0, Some (Z.of_nat k, 2)) /\ In k tuplet_sizes /\ List.length idxs = k
+    /\ hd_error idxs = Some i0 /\ nth_error ns i0 = Some n0
+    /\ (forall i, In i idxs -> exists n, nth_error ns i = Some n /\ tn_u n = true /\ tn_e n - tn_s n = d)
+    /\ (Z.of_nat k * d) mod 2 = 0
+    /\ estimate (Z.of_nat k * d / 2) (div_at dm (tn_s n0)) = ESome (ty, 0, None)
+    /\ (exact_hit (Z.of_nat k * d / 2) (div_at dm (tn_s n0)) = true ->
+        exists v, sym_to_num sd (div_at dm (tn_s n0)) = Some v /\ (v == inject_Z d)%Q).
+Proof. exact find_tuplets_assigned_lemma. Qed.
+Print Assumptions find_tuplets_assigned_exact.
+
+(* the symbolic duration a note carries afterwards comes from an assignment that names it *)
+Theorem find_tuplets_assignment_named : forall asg i sd,
+  assigned_to asg i = Some sd -> exists idxs, In (idxs, sd) asg /\ In i idxs.
+Proof. exact assigned_to_in. Qed.
+Print Assumptions find_tuplets_assignment_named.
+
+(* notes that report a symbolic duration (all notes of the library's own classes) get nothing assigned *)
+Theorem find_tuplets_noop_on_typed : forall dm ns,
+  (forall n, In n ns -> tn_u n = false) -> find_tuplets dm ns = [].
+Proof. exact find_tuplets_typed_lemma. Qed.
+Print Assumptions find_tuplets_noop_on_typed.
+
+Example find_tuplets_example :
+  find_tuplets [(0, 6)] [(0, 4, true); (4, 8, true); (8, 12, true); (12, 18, false)]
+  = [([0; 1; 2]%nat, ("quarter"%string, 0, Some (3, 2)))].
+Proof. exact ex_find_tuplets. Qed.
+Print Assumptions find_tuplets_example.
+
+(* ------------------------------------------------------------------ O4: composite answers *)
+
+Theorem composite_table_consistent : composite_consistent = true.
+Proof. exact composite_consistent_ok. Qed.
+Print Assumptions composite_table_consistent.
+
+(* estimate_symbolic_duration(d, div, return_com_durations=True) answers with several tied values only
+   within eps (a quarter) of a composite value, and the values sum to it (up to 1e-12) *)
+Theorem estimate_composite_within_eps : forall d div sds,
+  estimate_composite d div = Some sds ->
+  exists c v, In c composite_durs /\ sum_sym sds 1 = Some v
+    /\ (Qabs (inject_Z d / inject_Z div - c) < eps_default)%Q /\ (Qabs (v - c) <= tiny)%Q.
+Proof. exact estimate_composite_lemma. Qed.
+Print Assumptions estimate_composite_within_eps.
